@@ -9,6 +9,7 @@ import (
 	"path/filepath"
 	"strings"
 	"sync/atomic"
+	_ "verif/h/duoc"
 	"verif/h/own"
 
 	"github.com/biogo/biogo/align/pals/filter"
